@@ -141,31 +141,47 @@ func (p *Program) resolveRenames() {
 	}
 	sort.Strings(missing)
 	taken := map[*ssa.Function]bool{}
-	for _, id := range missing {
-		want := recorded[id]
-		var best *ssa.Function
-		bestScore, second := 0.0, 0.0
-		for _, cand := range added[want.Pkg] {
-			if taken[cand] {
+	// round 0: same receiver type; round 1: a method whose receiver was dropped (method -> function
+	// conversion keeps the parameter list only if the receiver was unused)
+	for round := 0; round < 2; round++ {
+		for _, id := range missing {
+			if _, done := p.funcByID[id]; done {
 				continue
 			}
-			fp := fingerprint(cand)
-			if fp.Sig != want.Sig || fp.Recv != want.Recv {
+			want := recorded[id]
+			if round == 1 && want.Recv == "" {
 				continue
 			}
-			s := jaccard(fp.Callees, want.Callees)
-			if s > bestScore {
-				second = bestScore
-				bestScore, best = s, cand
-			} else if s > second {
-				second = s
+			var best *ssa.Function
+			bestScore, second := 0.0, 0.0
+			for _, cand := range added[want.Pkg] {
+				if taken[cand] {
+					continue
+				}
+				fp := fingerprint(cand)
+				if fp.Sig != want.Sig {
+					continue
+				}
+				if round == 0 && fp.Recv != want.Recv {
+					continue
+				}
+				if round == 1 && fp.Recv != "" {
+					continue
+				}
+				s := jaccard(fp.Callees, want.Callees)
+				if s > bestScore {
+					second = bestScore
+					bestScore, best = s, cand
+				} else if s > second {
+					second = s
+				}
 			}
-		}
-		if best != nil && bestScore >= 0.6 && bestScore-second >= 0.15 {
-			taken[best] = true
-			p.funcByID[id] = best
-			p.alias[best] = id
-			p.Renames = append(p.Renames, fmt.Sprintf("%s is now %s (callee similarity %.2f)", id, funcID(best), bestScore))
+			if best != nil && bestScore >= 0.6 && bestScore-second >= 0.15 {
+				taken[best] = true
+				p.funcByID[id] = best
+				p.alias[best] = id
+				p.Renames = append(p.Renames, fmt.Sprintf("%s is now %s (callee similarity %.2f)", id, funcID(best), bestScore))
+			}
 		}
 	}
 }
